@@ -3,6 +3,7 @@ package props
 import (
 	"fmt"
 	"go/token"
+	"go/types"
 	"strings"
 
 	"gmslverif/fw"
@@ -255,5 +256,76 @@ func c20EveryTimeCaveat(c *fw.Ctx) {
 		c.Undecided(rule, construct, detail)
 	default:
 		c.Ok(rule, construct, c.P.Pos(vc.Pos()), fmt.Sprintf("%d clock comparison(s) inside the caveat loop", inLoop))
+	}
+}
+
+// c20NoKeylessCache: what the token routines remember across calls in package-level state must
+// be keyed by everything it was computed from. Positive evidence of a violation: a value is
+// published to a package-level sync.Map / map under a key that does not derive from the
+// signing secret (TokenOptions.ServerPrivateKey) - a token generated later with another secret
+// then continues the signature chain of the first one.
+func c20NoKeylessCache(c *fw.Ctx) {
+	rule := "6 fresh-macaroon"
+	construct := "state kept across calls is keyed by the signing secret"
+	n := 0
+	for _, entry := range []string{"tokens.GenerateLoginToken", "tokens.ValidateToken"} {
+		fn := c.P.Func(entry)
+		if fn == nil {
+			continue
+		}
+		for _, di := range fw.DeepInstrs(fn, nil) {
+			var key ssa.Value
+			var where ssa.Instruction
+			switch x := di.Instr.(type) {
+			case *ssa.Call:
+				name := fw.CalleeName(x)
+				if name != "(*sync.Map).Store" && name != "(*sync.Map).LoadOrStore" && name != "(*sync.Map).Swap" {
+					continue
+				}
+				if len(x.Call.Args) < 2 {
+					continue
+				}
+				if _, isG := x.Call.Args[0].(*ssa.Global); !isG {
+					continue
+				}
+				key, where = x.Call.Args[1], x
+			case *ssa.MapUpdate:
+				u, isU := x.Map.(*ssa.UnOp)
+				if !isU {
+					continue
+				}
+				if _, isG := u.X.(*ssa.Global); !isG {
+					continue
+				}
+				key, where = x.Key, x
+			default:
+				continue
+			}
+			n++
+			secret := fw.Derives3In(key, di.Fr, fw.FlowSpec{IsSource: func(v ssa.Value) bool {
+				switch y := v.(type) {
+				case *ssa.FieldAddr:
+					if st := derefStructOf(y.X.Type()); st != nil {
+						return st.Field(y.Field).Name() == "ServerPrivateKey"
+					}
+				case *ssa.Field:
+					if st, ok := y.X.Type().Underlying().(*types.Struct); ok {
+						return st.Field(y.Field).Name() == "ServerPrivateKey"
+					}
+				}
+				return false
+			}})
+			switch secret {
+			case fw.Yes:
+				c.Ok(rule, construct, c.P.Pos(fw.InstrPos(where)), "")
+			case fw.No:
+				c.Fail(rule, construct, c.P.Pos(fw.InstrPos(where)), "a value is remembered in package-level state under the key "+fw.SigIn(di.Fr, key)+", which does not include the signing secret: a later call with another secret is answered from what the first secret produced")
+			default:
+				c.Undecided(rule, construct, "the key of a package-level cache could not be traced")
+			}
+		}
+	}
+	if n == 0 {
+		c.Ok(rule, construct, "", "the token routines publish nothing to package-level state")
 	}
 }
